@@ -33,10 +33,13 @@ CONSTANTS
   WrapMode,     \* "code" = cool down where 1.7.1 does | "fixed" = at the end of the outermost use
   MaxSpur,      \* spurious failures of compare_exchange_weak per operation
   SoloOn,       \* TRUE: Freeze(t) actions enabled (C09)
-  Bug           \* "" or the name of a seeded model bug (negative controls)
+  Bug,          \* "" or the name of a seeded model bug (negative controls)
+  Hist,         \* "off" | "last" | "all": record who did what (schedule extraction for replay on the real code)
+  UseFast       \* FALSE: the fallback-only test strategy (Config::USE_FAST = false): no fast attempt at all
 
 Abs == INSTANCE ArcSwapAbs WITH LoadStepBound <- NF + 24
 
+LoadEntry == IF UseFast THEN "L_first" ELSE "F_addr"
 NONE  == 0
 IDLE  == [k |-> "idle"]
 GenV(g) == [k |-> "gen", g |-> g]
@@ -51,8 +54,9 @@ VARIABLES
   hp,    \* the heap of the pointer type: address <-> object
   ab,    \* ghost: ArcSwapAbs state
   err,   \* "" or the first violated clause
-  solo   \* 0, or the only thread allowed to run (C09)
-vars == <<sh, th, hp, ab, err, solo>>
+  solo,  \* 0, or the only thread allowed to run (C09)
+  hist   \* schedule history (see Hist)
+vars == <<sh, th, hp, ab, err, solo, hist>>
 
 (* ---------------------------------------------------------------------- *)
 Guard(a, n, i) == [a |-> a, n |-> n, i |-> i]      \* i = 0: owns a count; i in Slots: fast slot; i = -1: helping slot
@@ -63,7 +67,7 @@ InitTh(t) ==
     gen |-> 0, disc |-> FALSE, node |-> 0, offset |-> 0, held |-> <<>>, handles |-> <<>>,
     stack |-> <<>>, r |-> NoG, old |-> 0, new |-> 0, todo |-> <<>>, m |-> 0, control |-> IDLE,
     ts |-> 0, ms |-> 0, ps |-> <<>>, steps |-> 0, cur |-> NoG, wl |-> <<>>, scan |-> 0,
-    spur |-> 0, kind |-> "", depth |-> 0, after |-> "", used |-> FALSE, hnode |-> 0, prev |-> NoG ]
+    spur |-> 0, kind |-> "", depth |-> 0, after |-> "", used |-> FALSE, hnode |-> 0, prev |-> NoG, cont |-> "", iafter |-> "" ]
 
 Init ==
   /\ sh = [ storage |-> [c \in Conts |-> c],        \* container c initially holds the object at address c
@@ -85,6 +89,7 @@ Init ==
               !.parent = [o \in Conts |-> -1] ]
   /\ err = ""
   /\ solo = 0
+  /\ hist = <<>>
 
 L(t)  == th[t]
 PC(t) == th[t].pc
@@ -135,15 +140,19 @@ GReg(t, k) == t * 10 + k
 FreeG(t) == GReg(t, CHOOSE k \in 1..9 : GReg(t, k) \notin DOMAIN ab.greg)
 FreeH(t) == GReg(t, CHOOSE k \in 1..9 : GReg(t, k) \notin DOMAIN ab.hreg)
 
+\* LocalNode::with (list.rs:223): every outermost use of the thread-local node claims one first if the thread has none
+With(r, next) == IF r.node = 0 THEN [r EXCEPT !.pc = "N_head", !.cont = next] ELSE [r EXCEPT !.pc = next]
+\* ... and (after the fix) gives it up at its end if the generation wrapped meanwhile
+Done(r) == [r EXCEPT !.pc = "idle", !.ip = @ + 1, !.depth = 0, !.used = TRUE]
+EndWith(r, next) ==
+  IF WrapMode = "fixed" /\ r.disc /\ r.node # 0 THEN [r EXCEPT !.pc = "X_res", !.after = "wrap", !.cont = next]
+  ELSE IF next = "done" THEN Done(r) ELSE [r EXCEPT !.pc = next]
+
 Begin(t) ==
   /\ PC(t) = "idle" /\ HasOp(t)
   /\ LET o == Cur(t) IN
-     IF NeedsNode(o.k) /\ MY(t) = 0
-     THEN \* LocalNode::with: claim a node first (list.rs:227)
-          /\ Set(t, [L(t) EXCEPT !.pc = "N_head", !.after = "begin"]) /\ NoEmit /\ UNCHANGED <<sh, hp>>
-     ELSE
        CASE o.k \in {"load", "loadfull"} ->
-              /\ Set(t, [L(t) EXCEPT !.pc = "L_first", !.c = o.c, !.kind = o.k, !.steps = 0, !.stack = <<"top">>, !.depth = 1])
+              /\ Set(t, With([L(t) EXCEPT !.c = o.c, !.kind = o.k, !.steps = 0, !.stack = <<"top">>, !.depth = 1], LoadEntry))
               /\ Emit(<<InvEv(t, IF o.k = "load" THEN "load" ELSE "load_full", o.c, IF o.k = "load" THEN FreeG(t) ELSE FreeH(t))>>)
               /\ UNCHANGED <<sh, hp>>
          [] o.k \in {"store", "swap"} ->
@@ -157,7 +166,7 @@ Begin(t) ==
                            [e |-> "arg", t |-> t, v |-> ob]>>)
               /\ UNCHANGED sh
          [] o.k = "rcu" ->
-              /\ Set(t, [L(t) EXCEPT !.pc = "L_first", !.c = o.c, !.kind = "rcu", !.steps = 0, !.stack = <<"R_cur">>, !.depth = 1, !.spur = 0])
+              /\ Set(t, With([L(t) EXCEPT !.c = o.c, !.kind = "rcu", !.steps = 0, !.stack = <<"R_cur">>, !.depth = 1, !.spur = 0], LoadEntry))
               /\ Emit(<<InvEv(t, "rcu", o.c, FreeH(t))>>) /\ UNCHANGED <<sh, hp>>
          [] o.k = "dropg" ->
               /\ IF L(t).held = <<>> THEN Set(t, [L(t) EXCEPT !.ip = @ + 1]) /\ NoEmit
@@ -187,11 +196,8 @@ Begin(t) ==
          [] o.k = "setgen" ->    \* C13: preset the counter so that it wraps after o.c more transactions
               /\ Set(t, [L(t) EXCEPT !.gen = (GenMod - o.c) % GenMod, !.ip = @ + 1]) /\ NoEmit /\ UNCHANGED <<sh, hp>>
 
-\* an operation is finished: next instruction; in "fixed" mode the outermost use retires a wrapped node
-Finish(t, r) ==
-  IF WrapMode = "fixed" /\ r.disc /\ r.node # 0
-  THEN [r EXCEPT !.pc = "X_res", !.after = "wrap", !.depth = 0]
-  ELSE [r EXCEPT !.pc = "idle", !.ip = @ + 1, !.depth = 0, !.used = TRUE]
+\* an operation is finished: next instruction
+Finish(t, r) == EndWith(r, "done")
 
 (* ====================================================================== *)
 (* Node::get (list.rs:151-194) and cool-down                               *)
@@ -206,7 +212,7 @@ N_next(t) ==
         \* list.rs:176-191 push a new node (Relaxed load + compare_exchange_weak loop: one linearization point)
         /\ sh.nnodes < MaxNodes
         /\ sh' = [sh EXCEPT !.nnodes = @ + 1, !.inuse[sh.nnodes + 1] = "used"]
-        /\ Set(t, [L(t) EXCEPT !.node = sh.nnodes + 1, !.pc = "idle", !.wl = <<>>])
+        /\ Set(t, [L(t) EXCEPT !.node = sh.nnodes + 1, !.pc = L(t).cont, !.wl = <<>>])
      ELSE /\ Set(t, [L(t) EXCEPT !.scan = Head(L(t).wl), !.wl = Tail(@), !.pc = "N_cool"]) /\ UNCHANGED sh
   /\ NoEmit /\ UNCHANGED hp
 N_cool(t) ==   \* list.rs:129 in_use.load(Acquire)
@@ -225,7 +231,7 @@ N_claim(t) ==  \* list.rs:155 compare_exchange(UNUSED, USED, SeqCst)
   /\ PC(t) = "N_claim"
   /\ IF sh.inuse[L(t).scan] = "unused"
      THEN /\ sh' = [sh EXCEPT !.inuse[L(t).scan] = "used"]
-          /\ Set(t, [L(t) EXCEPT !.node = L(t).scan, !.pc = "idle", !.wl = <<>>, !.scan = 0])
+          /\ Set(t, [L(t) EXCEPT !.node = L(t).scan, !.pc = L(t).cont, !.wl = <<>>, !.scan = 0])
      ELSE /\ Set(t, [L(t) EXCEPT !.pc = "N_next"]) /\ UNCHANGED sh
   /\ NoEmit /\ UNCHANGED hp
 
@@ -244,7 +250,8 @@ X_rel(t) ==
   /\ sh' = [sh EXCEPT !.wr[MY(t)] = @ - 1]
   /\ LET r == L(t) IN
      Set(t, CASE r.after = "exit" -> [InitTh(t) EXCEPT !.ip = r.ip + 1, !.held = r.held, !.handles = r.handles]
-              [] r.after = "wrap" -> [r EXCEPT !.node = 0, !.disc = FALSE, !.pc = "idle", !.ip = @ + 1, !.used = TRUE]
+              [] r.after = "wrap" -> IF r.cont = "done" THEN Done([r EXCEPT !.node = 0, !.disc = FALSE])
+                                     ELSE [r EXCEPT !.node = 0, !.disc = FALSE, !.pc = r.cont]
               [] OTHER (* "mid": 1.7.1 cools down in the middle of the transaction, list.rs:285-286 *)
                        -> [r EXCEPT !.node = 0, !.disc = FALSE, !.pc = "F_cand", !.hnode = r.node])
   /\ NoEmit /\ UNCHANGED hp
@@ -259,8 +266,9 @@ Return(t, r, g, pre) ==
   CASE lbl = "top" /\ r.kind = "load" ->
          /\ Set(t, Finish(t, [r1 EXCEPT !.held = Append(@, [g |-> g, reg |-> FreeG(t)])]))
          /\ Emit(pre \o <<RetEv(t, "load", r.c, Obj(g.a), FreeG(t), r.steps)>>)
-    [] lbl = "top" (* loadfull *) -> Set(t, [r1 EXCEPT !.pc = "I_start", !.after = "LF"]) /\ Emit(pre)
-    [] OTHER -> Set(t, [r1 EXCEPT !.pc = lbl]) /\ Emit(pre)
+    [] lbl = "top" (* loadfull *) -> Set(t, EndWith([r1 EXCEPT !.iafter = "LF"], "I_start")) /\ Emit(pre)
+    [] lbl = "H_into" (* nested inside a writer: not an outermost use *) -> Set(t, [r1 EXCEPT !.pc = lbl]) /\ Emit(pre)
+    [] OTHER -> Set(t, EndWith(r1, lbl)) /\ Emit(pre)
 
 L_first(t) ==  \* hybrid.rs:44 storage.load(Relaxed)
   /\ PC(t) = "L_first"
@@ -389,8 +397,8 @@ I_dec(t) ==    \* hybrid.rs:143 T::dec
   /\ Set(t, Step1([L(t) EXCEPT !.pc = "I_done"])) /\ UNCHANGED sh
 I_done(t) ==
   /\ PC(t) = "I_done"
-  /\ IF L(t).after = "LF"
-     THEN /\ Set(t, Finish(t, [L(t) EXCEPT !.handles = Append(@, [a |-> L(t).r.a, reg |-> FreeH(t)])]))
+  /\ IF L(t).iafter = "LF"
+     THEN /\ Set(t, Done([L(t) EXCEPT !.handles = Append(@, [a |-> L(t).r.a, reg |-> FreeH(t)])]))
           /\ Emit(<<RetEv(t, "load_full", L(t).c, Obj(L(t).r.a), FreeH(t), L(t).steps)>>)
      ELSE Set(t, [L(t) EXCEPT !.pc = "H_their"]) /\ NoEmit
   /\ UNCHANGED <<sh, hp>>
@@ -420,7 +428,7 @@ DH_dec(t) ==
 W_swap(t) ==   \* lib.rs:472 ptr.swap(new, SeqCst)
   /\ PC(t) = "W_swap"
   /\ sh' = [sh EXCEPT !.storage[L(t).c] = L(t).new]
-  /\ Set(t, Step1([L(t) EXCEPT !.old = sh.storage[L(t).c], !.pc = "W_inc"]))
+  /\ Set(t, With(Step1([L(t) EXCEPT !.old = sh.storage[L(t).c]]), "W_inc"))   \* pay_all: LocalNode::with
   /\ Emit(<<[e |-> "w", t |-> t, c |-> L(t).c, old |-> Obj(sh.storage[L(t).c]), new |-> Obj(L(t).new)]>>)
   /\ UNCHANGED hp
 W_inc(t) ==    \* debt/mod.rs:89 T::inc(&val): pre-pay one reference
@@ -460,7 +468,7 @@ H_addr(t) ==   \* helping.rs:239 who.active_addr.load(SeqCst)
   /\ IF sh.addr[L(t).m] # L(t).c
      THEN Set(t, Step1([L(t) EXCEPT !.pc = "H_re"]))
      ELSE \* helping.rs:258 replacement(): a full nested load on our own node
-          Set(t, Step1([L(t) EXCEPT !.pc = "L_first", !.stack = <<"H_into">> \o @,
+          Set(t, Step1([L(t) EXCEPT !.pc = LoadEntry, !.stack = <<"H_into">> \o @,
                                     !.ptr = 0, !.slot = 0, !.cand = 0]))
   /\ NoEmit /\ UNCHANGED <<sh, hp>>
 H_re(t) ==     \* helping.rs:242 who.control.load(SeqCst): re-confirm
@@ -471,7 +479,7 @@ H_re(t) ==     \* helping.rs:242 who.control.load(SeqCst): re-confirm
   /\ NoEmit /\ UNCHANGED <<sh, hp>>
 H_into(t) ==   \* .into_inner() of the nested guard
   /\ PC(t) = "H_into"
-  /\ Set(t, [L(t) EXCEPT !.pc = "I_start", !.after = "H"]) /\ NoEmit /\ UNCHANGED <<sh, hp>>
+  /\ Set(t, [L(t) EXCEPT !.pc = "I_start", !.iafter = "H"]) /\ NoEmit /\ UNCHANGED <<sh, hp>>
 H_their(t) ==  \* helping.rs:263 who.space_offer.load(SeqCst)
   /\ PC(t) = "H_their"
   /\ Set(t, Step1([L(t) EXCEPT !.ts = sh.space[L(t).m], !.pc = "H_mine"])) /\ NoEmit /\ UNCHANGED <<sh, hp>>
@@ -521,14 +529,14 @@ W_rel(t) ==    \* list.rs:56 active_writers.fetch_sub(1, Release)
 W_dec(t) ==    \* debt/mod.rs:113 implicit dec of the pre-paid reference
   /\ PC(t) = "W_dec"
   /\ Emit(DecEvs(t, L(t).old)) /\ hp' = HpAfterDec(L(t).old)
-  /\ Set(t, Step1([L(t) EXCEPT !.pc = IF L(t).kind = "rcu" THEN "R_dec" ELSE "W_ret"])) /\ UNCHANGED sh
+  /\ Set(t, EndWith(Step1(L(t)), IF L(t).kind = "rcu" THEN "R_dec" ELSE "W_ret")) /\ UNCHANGED sh
 W_ret(t) ==
   /\ PC(t) = "W_ret"
   /\ IF L(t).kind = "swap"
-     THEN /\ Set(t, Finish(t, [L(t) EXCEPT !.handles = Append(@, [a |-> L(t).old, reg |-> FreeH(t)])]))
+     THEN /\ Set(t, Done([L(t) EXCEPT !.handles = Append(@, [a |-> L(t).old, reg |-> FreeH(t)])]))
           /\ Emit(<<RetEv(t, "swap", L(t).c, Obj(L(t).old), FreeH(t), L(t).steps)>>) /\ UNCHANGED hp
      ELSE \* store: drop(self.swap(val)) lib.rs:461
-          /\ Set(t, Finish(t, L(t)))
+          /\ Set(t, Done(L(t)))
           /\ Emit(DecEvs(t, L(t).old) \o <<RetEv(t, "store", L(t).c, 0, 0, L(t).steps)>>)
           /\ hp' = HpAfterDec(L(t).old)
   /\ UNCHANGED sh
@@ -543,7 +551,7 @@ R_cur(t) ==    \* cur = self.load(); new = f(&cur)
   /\ LET a == CHOOSE x \in hp.free : \A y \in hp.free : x <= y
          ob == hp.next IN
      /\ hp' = [hp EXCEPT !.free = @ \ {a}, !.objAt[a] = ob, !.next = @ + 1]
-     /\ Set(t, [L(t) EXCEPT !.cur = L(t).r, !.new = a, !.pc = "L_first", !.stack = <<"R_cmp">>])
+     /\ Set(t, With([L(t) EXCEPT !.cur = L(t).r, !.new = a, !.stack = <<"R_cmp">>], LoadEntry))
      /\ Emit(<<[e |-> "rcu_f", t |-> t, c |-> L(t).c, cur |-> Obj(L(t).r.a), k |-> 1],
                [e |-> "alloc", t |-> t, o |-> ob, a |-> a, p |-> Obj(L(t).r.a)]>>)
   /\ UNCHANGED sh
@@ -558,7 +566,7 @@ R_cx(t) ==     \* hybrid.rs:221 storage.compare_exchange_weak(current, new, SeqC
   /\ PC(t) = "R_cx"
   /\ \/ /\ sh.storage[L(t).c] = L(t).cur.a
         /\ sh' = [sh EXCEPT !.storage[L(t).c] = L(t).new]
-        /\ Set(t, Step1([L(t) EXCEPT !.old = L(t).cur.a, !.pc = "W_inc"]))
+        /\ Set(t, With(Step1([L(t) EXCEPT !.old = L(t).cur.a]), "W_inc"))
         /\ Emit(<<[e |-> "w", t |-> t, c |-> L(t).c, old |-> Obj(L(t).cur.a), new |-> Obj(L(t).new)]>>)
      \/ /\ (sh.storage[L(t).c] # L(t).cur.a \/ L(t).spur < MaxSpur)
         /\ UNCHANGED sh /\ NoEmit
@@ -577,7 +585,7 @@ R_dropold(t) == \* the guard `old` of the failed iteration goes out of scope; lo
   /\ Set(t, [L(t) EXCEPT !.r = L(t).prev, !.pc = "G_pay", !.after = "R_again"]) /\ NoEmit /\ UNCHANGED <<sh, hp>>
 R_again(t) ==
   /\ PC(t) = "R_again"
-  /\ Set(t, [L(t) EXCEPT !.pc = "L_first", !.stack = <<"R_cmp">>]) /\ NoEmit /\ UNCHANGED <<sh, hp>>
+  /\ Set(t, With([L(t) EXCEPT !.stack = <<"R_cmp">>], LoadEntry)) /\ NoEmit /\ UNCHANGED <<sh, hp>>
 R_dropnew(t) == \* rejected new value loses its reference (dropped inside compare_and_swap)
   /\ PC(t) = "R_dropnew"
   /\ Emit(DecEvs(t, L(t).new)) /\ hp' = HpAfterDec(L(t).new)
@@ -613,7 +621,7 @@ R_dropcur(t) ==
   /\ NoEmit /\ UNCHANGED <<sh, hp>>
 R_ret(t) ==
   /\ PC(t) = "R_ret"
-  /\ Set(t, Finish(t, [L(t) EXCEPT !.handles = Append(@, [a |-> L(t).old, reg |-> FreeH(t)])]))
+  /\ Set(t, Done([L(t) EXCEPT !.handles = Append(@, [a |-> L(t).old, reg |-> FreeH(t)])]))
   /\ Emit(<<RetEv(t, "rcu", L(t).c, Obj(L(t).old), FreeH(t), L(t).steps)>>)
   /\ UNCHANGED <<sh, hp>>
 
@@ -634,10 +642,15 @@ Step(t) ==
 
 InOp(t) == PC(t) \notin {"idle", "dead"}
 
-Freeze(t) == /\ SoloOn /\ solo = 0 /\ InOp(t) /\ solo' = t /\ UNCHANGED <<sh, th, hp, ab, err>>
+Freeze(t) == /\ SoloOn /\ solo = 0 /\ InOp(t) /\ solo' = t /\ UNCHANGED <<sh, th, hp, ab, err, hist>>
+
+\* what thread t is about to do, with the operands that identify the access (for tools/cover.py)
+Entry(t) == LET r == th[t] IN
+  <<t, r.pc, r.node, r.m, r.c, r.slot, IF r.ps = <<>> THEN 0 ELSE Head(r.ps), r.r.i, r.r.n, r.scan, r.kind, Len(r.wl), IF r.ip <= Len(Prog[t]) THEN Prog[t][r.ip].k ELSE "none">>
+HistUpd(t) == CASE Hist = "off" -> hist [] Hist = "last" -> <<Entry(t)>> [] OTHER -> Append(hist, Entry(t))
 
 Next ==
-  \/ \E t \in Threads : (solo = 0 \/ solo = t) /\ err = "" /\ Step(t) /\ UNCHANGED solo
+  \/ \E t \in Threads : (solo = 0 \/ solo = t) /\ err = "" /\ Step(t) /\ UNCHANGED solo /\ hist' = HistUpd(t)
   \/ \E t \in Threads : Freeze(t)
 
 Spec == Init /\ [][Next]_vars
@@ -689,5 +702,5 @@ SoloProgress == (solo # 0 /\ InOp(solo) /\ err = "") => ENABLED Step(solo)
 TypeOK == /\ \A n \in Nodes : sh.wr[n] >= 0
           /\ sh.nnodes \in 0..MaxNodes
 
-Done == \A t \in Threads : ~HasOp(t) /\ th[t].pc = "idle"
+AllDone == \A t \in Threads : ~HasOp(t) /\ th[t].pc = "idle"
 =============================================================================
